@@ -167,6 +167,13 @@ func ZZ_C19_canaryCmds() {
 		at := metav1.NewTime(nondet.Base().Add(-time.Hour))
 		c.ERS[1].Status.Conditions = append(c.ERS[1].Status.Conditions, v1alpha1.ExtendedDaemonSetReplicaSetCondition{Type: v1alpha1.ConditionTypeCanaryFailed, Status: corev1.ConditionFalse, LastTransitionTime: at, LastUpdateTime: at})
 	}
+	// the canary replica set may be a re-used one: it was a canary before, lost that role (it still carries
+	// Canary=False from then) and became the canary again when its template was applied again; the replica-set
+	// controller has not synced it in its new role yet
+	if (state == "canary" || state == "user-paused") && nondet.Bool("canaryReplicaSetDemotedEarlier") {
+		at := metav1.NewTime(nondet.Base().Add(-time.Hour))
+		c.ERS[1].Status.Conditions = append(c.ERS[1].Status.Conditions, v1alpha1.ExtendedDaemonSetReplicaSetCondition{Type: v1alpha1.ConditionTypeCanary, Status: corev1.ConditionFalse, LastTransitionTime: at, LastUpdateTime: at})
+	}
 	// an earlier canary was validated: the annotation still names the replica set promoted then (the
 	// controller does not remove it); it says nothing about the current canary
 	if (state == "canary" || state == "user-paused") && nondet.Bool("validAnnotationOfAnEarlierCanary") {
@@ -582,4 +589,74 @@ func ZZ_C19_pauseDoesNotOutliveItsCanary() {
 	nondet.Assert("C19.outlive.next-canary-runs", r1 == nil && r2 == nil && final.Status.Canary != nil && final.Status.Canary.ReplicaSet == rsC)
 	nondet.Assert("C19.outlive.next-canary-not-paused", final.Status.State == v1alpha1.ExtendedDaemonSetStatusStateCanary)
 	nondet.Reach("C19.outlive.half-way", rejectedOnce)
+}
+
+// ZZ_C08_unpauseDoesNotOutliveItsCanary: "while a canary is paused, by annotation ..., no additional canary pod
+// is created and elapsed time does not promote it ... the paused situation is reflected in status.state" — for
+// the canary that is paused now, whatever was said about an earlier one: the previous canary was paused and
+// resumed with `canary unpause` (its annotations say unpaused) and then validated; the reconcile that ended it
+// may have stopped after its status write (its update of the object rejected once).  A new template starts the
+// next canary and the user pauses it by setting the canary-paused annotation (kubectl annotate): it is paused.
+func ZZ_C08_unpauseDoesNotOutliveItsCanary() {
+	c, _ := zzScenario("resumed")
+	nondet.Assert("C08.outlive.validate-accepted", zzRunCanaryCmd(c, "validate") == nil)
+	c.InjectFaults = true
+	c.FaultForce = 1
+	rejectedOnce := false
+	rejectUpdate := nondet.Bool("updateRejectedOnce")
+	c.FaultOnly = func(verb, kind, name, node string) bool {
+		if rejectUpdate && !rejectedOnce && verb == "update" && kind == "ExtendedDaemonSet" {
+			rejectedOnce = true
+			return true
+		}
+		return false
+	}
+	_ = zzReconcileEDS(c)
+	c.InjectFaults = false
+	_ = zzReconcileEDS(c)
+	_ = zzReconcileEDS(c)
+	ended := zzStored(c)
+	nondet.Assert("C08.outlive.canary-ended", ended.Status.Canary == nil && ended.Status.ActiveReplicaSet == "foo-b")
+	ended.Spec.Template = zzTpl("C")
+	_ = zzReconcileEDS(c) // creates the replica set of C
+	_ = zzReconcileEDS(c) // the next canary starts
+	running := zzStored(c)
+	nondet.Assert("C08.outlive.next-canary-started", running.Status.Canary != nil && running.Status.Canary.ReplicaSet != "foo-b")
+	if running.Annotations == nil {
+		running.Annotations = map[string]string{}
+	}
+	running.Annotations[v1alpha1.ExtendedDaemonSetCanaryPausedAnnotationKey] = "true"
+	r1 := zzReconcileEDS(c)
+	final := zzStored(c)
+	nondet.Observe("state", string(final.Status.State))
+	nondet.Assert("C08.outlive.paused-by-annotation-is-paused", r1 == nil && final.Status.State == v1alpha1.ExtendedDaemonSetStatusStateCanaryPaused && final.Status.ActiveReplicaSet == "foo-b")
+	// ... and the replica-set controller agrees: the paused canary replica set creates no pod on its canary node
+	before := c.Count("create", "Pod")
+	rsRec, _ := erscontroller.NewReconciler(erscontroller.ReconcilerOptions{}, c, c.Scheme(), logr.Logger{}, &fakeapi.Recorder{})
+	_, rerr := rsRec.Reconcile(context.TODO(), reconcile.Request{NamespacedName: types.NamespacedName{Namespace: "ns", Name: final.Status.Canary.ReplicaSet}})
+	nondet.Assert("C08.outlive.paused-canary-creates-no-pod", rerr == nil && c.Count("create", "Pod") == before)
+	nondet.Reach("C08.outlive.half-way", rejectedOnce)
+}
+
+// ZZ_C07_userFailOnAReusedReplicaSet: "when the canary replica set is marked failed ... by the user, the
+// controller restores spec.template ..., clears status.canary, leaves status.activeReplicaSet unchanged" — the
+// replica set the user fails may be a re-used one that still carries the conditions of an earlier life:
+// Canary-Failed=False (it was active once) and / or Canary=False (it lost the canary role once and got it
+// back).  `kubectl-eds canary fail` is accepted and the next two reconciles roll back.
+func ZZ_C07_userFailOnAReusedReplicaSet() {
+	c, _ := zzScenario("canary")
+	at := metav1.NewTime(nondet.Base().Add(-time.Hour))
+	if nondet.Bool("staleFailedFalse") {
+		c.ERS[1].Status.Conditions = append(c.ERS[1].Status.Conditions, v1alpha1.ExtendedDaemonSetReplicaSetCondition{Type: v1alpha1.ConditionTypeCanaryFailed, Status: corev1.ConditionFalse, LastTransitionTime: at, LastUpdateTime: at})
+	}
+	if nondet.Bool("staleCanaryFalse") {
+		c.ERS[1].Status.Conditions = append(c.ERS[1].Status.Conditions, v1alpha1.ExtendedDaemonSetReplicaSetCondition{Type: v1alpha1.ConditionTypeCanary, Status: corev1.ConditionFalse, LastTransitionTime: at, LastUpdateTime: at})
+	}
+	nondet.Assert("C07.user-fail.accepted", zzRunCanaryCmd(c, "fail") == nil)
+	r1 := zzReconcileEDS(c)
+	r2 := zzReconcileEDS(c)
+	final := zzStored(c)
+	nondet.Assert("C07.user-fail.rolled-back", r1 == nil && r2 == nil && final.Status.Canary == nil && final.Status.ActiveReplicaSet == "foo-a" &&
+		final.Spec.Template.Spec.Containers[0].Image == "agent:A" && final.Spec.Template.Labels["version"] == "A")
+	nondet.Observe("state", string(final.Status.State))
 }
